@@ -36,7 +36,7 @@ PROPERTY {pid} - {p['title']}
 Your task: produce THREE different, independent, realistic code changes ("mutations") to the library's non-test Go source, each of which
  (1) still compiles,
  (2) still passes the ENTIRE existing test suite unchanged (do not edit or add test files in the patch; do not touch files that start with the build tag line "//go:build verif"),
- (3) breaks the property above, but only in a SUBTLE way that needs something specific to manifest. A strong property-based test suite already exists for this property (exhaustive small inputs, random generated templates, differential testing against a reference model, fault injection at every place of template trees, sequences of calls compared with fresh-process baselines), and thirteen earlier rounds of people doing this same exercise (780 attempts) were caught in the end, except a handful that changed behaviour the statement leaves open (which white space an argument-less trim removes, how floats beyond 2^53 are printed, which of two lines of one construct an error names, what two @use statements in one page mean, what @break/@continue do outside any loop, what @dump prints, how maps with non-string keys or two reserves of one name behave, which line an unexpected end of input after a final line break belongs to, whether the keys of an object literal are HTML-escaped like its string values) - those do not count: the change must break the property as literally stated, on inputs the statement covers. So aim for faults that such testing still tends to MISS: a rare combination of THREE features; a value that only arises from a specific built-in or from arithmetic; a boundary in a name, size, depth or count that generators rarely hit (e.g. the 2nd of several layouts, a 3-level nesting, a 17th element, a name that is a prefix of another name, an identifier that starts like a keyword); state carried between calls, between passes of a loop or between files of one load; a fault only on an error path inside another error path; a specific ORDER of operations; a rarely used spelling/syntax form that the documentation/testdata allows; two cooperating code sites that each look fine alone; platform/format corner cases (very large/small numbers, -0, exponents, CR-only line ends, tabs, non-BMP characters, invalid UTF-8).
+ (3) breaks the property above, but only in a SUBTLE way that needs something specific to manifest. A strong property-based test suite already exists for this property (exhaustive small inputs, random generated templates, differential testing against a reference model, fault injection at every place of template trees, sequences of calls compared with fresh-process baselines), and fourteen earlier rounds of people doing this same exercise (820 attempts) were caught in the end, except a handful that changed behaviour the statement leaves open (which white space an argument-less trim removes, how floats beyond 2^53 are printed, which of two lines of one construct an error names, what two @use statements in one page mean, what @break/@continue do outside any loop, what @dump prints, how maps with non-string keys or two reserves of one name behave, which line an unexpected end of input after a final line break belongs to, whether the keys of an object literal are HTML-escaped like its string values) - those do not count: the change must break the property as literally stated, on inputs the statement covers. So aim for faults that such testing still tends to MISS: a rare combination of THREE features; a value that only arises from a specific built-in or from arithmetic; a boundary in a name, size, depth or count that generators rarely hit (e.g. the 2nd of several layouts, a 3-level nesting, a 17th element, a name that is a prefix of another name, an identifier that starts like a keyword); state carried between calls, between passes of a loop or between files of one load; a fault only on an error path inside another error path; a specific ORDER of operations; a rarely used spelling/syntax form that the documentation/testdata allows; two cooperating code sites that each look fine alone; platform/format corner cases (very large/small numbers, -0, exponents, CR-only line ends, tabs, non-BMP characters, invalid UTF-8).
 Each should look like a plausible bug or regression a developer could really introduce (refactoring slip, off-by-one, wrong condition, missing copy, premature optimisation/caching, wrong constant, forgotten case, wrong variable, early return), not sabotage such as `if input == "magic"`. Prefer small diffs (1-15 lines).
 
 Earlier attempts (by other people) already changed these places - do NOT repeat them or close variants; find NEW places and mechanisms: {'; '.join(earlier)}.
